@@ -9,6 +9,15 @@ pub mod attrs;
 #[path = "../../corpus/basic_names_h.rs"]
 pub mod basic_names_h;
 
+/// Compile gate: every attribute forwarded with `sv::msg_attr` arrives on its message type -- two
+/// separate `derive(..)` attributes per kind, written in either order, give BOTH traits.
+pub fn _forwarded_derives_arrive() {
+    fn both<T: PartialOrd + Eq>() {}
+    both::<attrs::at::sv::InstantiateMsg>();
+    both::<attrs::at::sv::MigrateMsg>();
+    both::<attrs::at::sv::SudoMsg>();
+}
+
 #[cfg(kani)]
 mod h {
     use crate::attrs::at::sv::{ExecMsg, InstantiateMsg, MigrateMsg, QueryMsg, SudoMsg};
